@@ -1,6 +1,8 @@
+import DarkluaModel.Shared.AstSexp
 import DarkluaModel.Rules.RemoveAssertions
 import DarkluaModel.Rules.RemoveDebugProfiling
 import DarkluaModel.Rules.InjectValue
+import DarkluaModel.Shared.VisitorSound.Heap.Refs
 /-!
 # C17 — rule dispatch and the decidable hypotheses of the partial theorems
 
@@ -12,12 +14,11 @@ rewriting meets, including in nodes produced by earlier rewrites
 | flag | region | finding |
 |---|---|---|
 | `zero-arg-expr` | matched `assert()` in expression position | F18 |
-| `nested-single` | matched call whose only kept argument is itself a matched call: the visitor does not re-apply the hook to the node it just produced, the inner call survives | F30 |
-| `bare-local` + `underscore` | statement rewritten to a bare `local _ = …` in a program that mentions the variable `_` | F31 |
-| `single-kept-expr` | profiling call in expression position with exactly one kept argument: `e and nil` is `false` when `e` is `false` | F32 |
-| `multi-position` | profiling call as the last element of an argument / return / table list: becomes one `nil` instead of no value | F32 |
-| `shadowed-prefix` | injected identifier in prefix position under a shadowing local | F19 |
+| `multi-position` | profiling call as the last element of an argument / return / table list: becomes one `nil` instead of no value | F33 |
 | `global-write` | the program assigns the targeted global itself (`assert = …`, `function assert() … end`, `NAME = …`, `_G.NAME = …`, `debug.profilebegin = …`): outside the property's quantifier, the rule cannot know | – |
+
+Fixed in /repo and no longer excused (the flags are gone): F19 (`shadowed-prefix`), F30 (`nested-single`),
+F31 (`underscore-leak`), F32 (`single-kept-expr`).
 -/
 namespace DarkluaModel.C17
 open Rules Rules.RemoveCallMatch
@@ -40,13 +41,40 @@ def flagsOf : Rule → Block → List String
   | .removeDebugProfiling p, b => (RemoveCallMatch.run RemoveDebugProfiling.matcher p b).2.flags
   | .injectGlobalValue n v, b => (InjectValue.run n v b).2.flags
 
-/-- the defect regions a program touches (`bare-local` / `underscore` only count together) -/
-def defects (r : Rule) (b : Block) : List String :=
-  let fs := flagsOf r b
-  let leak := fs.contains "bare-local" && fs.contains "underscore"
-  (fs.filter fun f => f != "bare-local" && f != "underscore") ++ (if leak then ["underscore-leak"] else [])
+/-- the defect regions a program touches -/
+def defects (r : Rule) (b : Block) : List String := flagsOf r b
 
 /-- `H₁₇`: the program is outside every listed defect region of the rule -/
 def inHypothesis (r : Rule) (b : Block) : Bool := (defects r b).isEmpty
 
 end DarkluaModel.C17
+
+/-! ### the region of the whole-rule theorem `inject_refines_whole` (`C17/Whole.lean`, `C17/Thm.lean`) -/
+namespace DarkluaModel.C17.Whole
+open Rules Rules.InjectValue
+
+/-- literal value expressions (what `inject_global_value` builds from scalar JSON values) -/
+def isLit : Expr → Bool
+  | .nil | .true | .false | .num _ | .str _ => true
+  | .un .neg (.num _) => true
+  | _ => false
+
+/-- the expression hook restricted to identifiers -/
+def processExpressionVar (ident : String) (value : Expr) (e : Expr) (st : St) : Expr × St :=
+  match e with
+  | .var _ => processExpression ident value e st
+  | _ => (e, st)
+
+def processorVar (ident : String) (value : Expr) : Processor St :=
+  { processor ident value with expr := processExpressionVar ident value }
+
+def applyVar (ident : String) (value : Expr) (b : Block) : Block :=
+  (Visitor.runScoped (processorVar ident value) b {}).1
+
+/-- is (value, program) inside the hypotheses of `inject_refines_whole`? literal value, the program never
+declares or assigns the name, and the rule's run coincides with the identifier-only run -/
+def inRegion (ident : String) (value : Expr) (b : Block) : Bool × Bool × Bool :=
+  (isLit value, !b.refs (.wat ident),
+    (InjectValue.apply ident value b).toSexp.toString == (applyVar ident value b).toSexp.toString)
+
+end DarkluaModel.C17.Whole
